@@ -34,7 +34,7 @@ ASSUMPTIONS = [
     'EFLR sub-language: every object carries all template attributes (value, count+value or absent); no invariant attributes, no redundant/replacement sets',
 ]
 PROBES = ['channels_object_reused', 'negative_step', 'partial_after_full_same_count', 'full_after_partial_same_count', 'sample_lt_n', 'step_gt1', 'subset_excl_last', 'subset_excl_middle', 'dim2',
-          'interleaved_types', 'after_failed_populate', 'fetch_between', 'subset_unknown_name', 'empty_iflr', 'multi_lf', 'frame_number_gap', 'record_spans_vrs', 'first_channel_is_array', 'first_channel_gt_260_bytes']
+          'interleaved_types', 'after_failed_populate', 'fetch_between', 'subset_unknown_name', 'empty_iflr', 'multi_lf', 'frame_number_gap', 'record_spans_vrs', 'first_channel_is_array', 'first_channel_gt_260_bytes', 'two_indexes_interleaved']
 
 LogicalFile = Slice = ExceptionTotalDepth = None
 
@@ -92,7 +92,18 @@ def generate(seed, tier):
     rng = seeds.Rng(seed)
     model = DL.gen_model(rng, max_frames=rng.pick([6, 20, 60]), waves=rng.chance(0.3))
     # 'reuse_channels': the caller keeps ONE set object per frame array and edits it in place between calls
-    return {'world': 'dlis_logical', 'model': model, 'ops': gen_ops(rng, model), 'reuse_channels': rng.chance(0.35)}
+    sc = {'world': 'dlis_logical', 'model': model, 'ops': gen_ops(rng, model), 'reuse_channels': rng.chance(0.35)}
+    if rng.chance(0.2):
+        # a second logical index on another file is alive at the same time; [k, li, fi, slice] = populate that frame array of the
+        # other file just before operation k of the history
+        other = DL.gen_model(seeds.Rng(rng.getrandbits(32)), max_frames=6, max_lfs=2)
+        targets = [(li, fi) for li, lf in enumerate(other['lfs']) for fi, _ in enumerate(lf['frames'])]
+        steps = []
+        for k in sorted(rng.randrange(0, len(sc['ops']) + 1) for _ in range(rng.randrange(1, 5))):
+            li, fi = rng.pick(targets)
+            steps.append([k, li, fi, rng.pick([None, None, ['slice', None, None, 2], ['slice', 1, None, None]])])
+        sc['shadow'] = {'model': other, 'steps': steps}
+    return sc
 
 
 def select(sl, n):
@@ -198,7 +209,23 @@ def execute(scenario):
     shared_sets = {}
     prev_failed = False
     prev_kind = None
-    for k, op in enumerate(scenario['ops']):
+    shadow = None
+    if scenario.get('shadow'):
+        res.probe('two_indexes_interleaved')
+        sh_by, sh_layout = DL.build(scenario['shadow']['model'])
+        try:
+            sh_obj = LogicalFile.LogicalIndex(SimFile(sh_by, clock, name='<sim-b>'))
+            sh_obj.__enter__()
+            shadow = (sh_obj, sh_layout)
+        except Exception as err:
+            res.violation('index-exception', f'second index: {type(err).__name__}: {err}', exc=type(err).__name__, second_index=True)
+    for k, op in enumerate(list(scenario['ops']) + [None]):
+        if shadow is not None:
+            for st in scenario['shadow']['steps']:
+                if st[0] == k:
+                    shadow_step(res, shadow, st, k)
+        if op is None:
+            break
         if op[0] == 'fetch':
             res.op('fetch')
             idx = getattr(li_obj, '_logical_record_index', None)
@@ -314,6 +341,8 @@ def execute(scenario):
                               rep=chm['rep'], channel_index=c, **facts)
     try:
         li_obj.__exit__(None, None, None)
+        if shadow is not None:
+            shadow[0].__exit__(None, None, None)
     except Exception as err:
         res.violation('close-exception', f'{type(err).__name__}: {err}', exc=type(err).__name__)
     res.events.append(('io', len(f.log), seeds.digest(f.log)))
@@ -323,9 +352,45 @@ def execute(scenario):
     return res
 
 
+def shadow_step(res, shadow, st, k):
+    """Populate one frame array of the second file (alive at the same time) and hold it to what was written there."""
+    sh_obj, sh_layout = shadow
+    _, li, fi, sl = st
+    res.op('shadow_populate')
+    try:
+        lf = sh_obj.logical_files[li]
+        fa = lf.log_pass.frame_arrays[fi]
+        fr = sh_layout['lfs'][li]['frames'][fi]
+        n = len(fr['rows'])
+        indices = select(sl, n)
+        if not indices:
+            return
+        ret = lf.populate_frame_array(fa, make_slice(sl), None)
+    except Exception as err:
+        res.violation('populate-exception', f'before op {k}: second index, populate {st[1:]}: {type(err).__name__}: {err}', exc=type(err).__name__, second_index=True)
+        return
+    res.ev('shadow', k, li, fi, ret)
+    if ret != len(indices):
+        res.violation('populate-count', f'before op {k}: second index, populate {st[1:]} returned {ret}, selection has {len(indices)} frames', second_index=True)
+        return
+    for c, (ch, chm) in enumerate(zip(fa.channels, fr['channels'])):
+        exp = expected_array(chm, fr['rows'], c, indices)
+        got = np.ascontiguousarray(ch.array)
+        if not _eq_bits(got, exp):
+            res.violation('channel-values', f'before op {k}: second index, populate {st[1:]}: channel {chm["name"]} differs from what was written to its file',
+                          rep=chm['rep'], channel_index=c, second_index=True)
+            return
+
+
 def candidates(scenario):
     import copy
     ops = scenario['ops']
+    if scenario.get('shadow'):
+        yield {k: v for k, v in scenario.items() if k != 'shadow'}
+        st = scenario['shadow']['steps']
+        for j in range(len(st)):
+            if len(st) > 1:
+                yield dict(scenario, shadow=dict(scenario['shadow'], steps=st[:j] + st[j + 1:]))
     model = scenario['model']
     for k in range(len(ops) - 1, -1, -1):
         yield dict(scenario, ops=ops[:k] + ops[k + 1:])
